@@ -518,6 +518,41 @@ SeqSteps(cc) == { st \in ({"add", "del"} \X SeqX) \cup ({"enc", "copy", "redecod
                     /\ ~(st[2] = 0 /\ cc.h # <<>> /\ cc.h[Len(cc.h)].op = st[1]) }
 InitSeq == { [ty |-> t, sid |-> 0, b |-> <<>>, mut |-> <<>>, op |-> "none", cont |-> SeqInit(t), h |-> <<>>] : t \in SeqTypes }
 
+\* ======================================================================= the encoder API is stateless
+\* rlp.EncodeToReader returns a reader that produces the encoding lazily from a pooled buffer; Encode and EncodeToBytes use
+\* the same pool.  Whatever is interleaved, every reader yields exactly Enc(its own value), an immediate encoding is
+\* Enc(its value), and a reader at EOF yields nothing more.  Scope "api" enumerates every sequence of ApiDepth calls over
+\* two reader slots and two values: open v (EncodeToReader into the lowest free slot; a slot is free again once its reader
+\* reached EOF), imm v (EncodeToBytes for value 1, Encode to a writer for value 2), chunk s (read two bytes), drain s (read
+\* to EOF), again s (read at EOF).  rd[s] = [st |-> "free" | "live" | "eof", v, pos].
+ApiVal(v) == IF v = 1 THEN Lst(<<S(<<1, 1, 1>>), Lst(<<S(<<2, 2>>)>>), S(Fill(60, 3))>>)
+             ELSE Lst(<<Lst(<<>>), S(<<7, 7>>), Lst(<<S(<<8>>), S(Fill(5, 9))>>)>>)
+ApiVals == {1, 2}
+ApiSlots == {1, 2}
+ApiFree == [st |-> "free", v |-> 0, pos |-> 0]
+ApiInit == <<ApiFree, ApiFree>>
+ApiLowestFree(rd) == IF rd[1].st # "live" THEN 1 ELSE IF rd[2].st # "live" THEN 2 ELSE 0
+ApiOps(rd) ==
+   (IF ApiLowestFree(rd) # 0 THEN { [op |-> "open", v |-> v, s |-> ApiLowestFree(rd)] : v \in ApiVals } ELSE {})
+   \cup (IF \E s \in ApiSlots : rd[s].st # "free" THEN { [op |-> "imm", v |-> v, s |-> 0] : v \in ApiVals } ELSE {})
+   \cup { [op |-> o, v |-> 0, s |-> s] : o \in {"chunk", "drain"}, s \in { t \in ApiSlots : rd[t].st = "live" } }
+   \cup { [op |-> "again", v |-> 0, s |-> s] : s \in { t \in ApiSlots : rd[t].st = "eof" } }
+ApiRest(r) == LET e == Enc(ApiVal(r.v)) IN SubSeq(e, r.pos + 1, Len(e))
+\* what the call must return: the bytes, and (open) the announced size
+ApiOut(rd, o) == CASE o.op = "open"  -> <<>>
+                   [] o.op = "imm"   -> Enc(ApiVal(o.v))
+                   [] o.op = "chunk" -> LET q == ApiRest(rd[o.s]) IN SubSeq(q, 1, IF Len(q) < 2 THEN Len(q) ELSE 2)
+                   [] o.op = "drain" -> ApiRest(rd[o.s])
+                   [] o.op = "again" -> <<>>
+ApiSize(o) == IF o.op = "open" THEN Len(Enc(ApiVal(o.v))) ELSE 0
+\* chunk reaches EOF only when it asks beyond the end (a short read); drain and again always end at EOF
+ApiEof(rd, o) == CASE o.op = "chunk" -> Len(ApiRest(rd[o.s])) < 2 [] o.op \in {"drain", "again"} -> TRUE [] OTHER -> FALSE
+ApiNext(rd, o) == CASE o.op = "open"  -> [rd EXCEPT ![o.s] = [st |-> "live", v |-> o.v, pos |-> 0]]
+                    [] o.op = "chunk" -> [rd EXCEPT ![o.s] = [@ EXCEPT !.pos = @ + Len(ApiOut(rd, o)), !.st = IF ApiEof(rd, o) THEN "eof" ELSE "live"]]
+                    [] o.op = "drain" -> [rd EXCEPT ![o.s] = [@ EXCEPT !.pos = @ + Len(ApiOut(rd, o)), !.st = "eof"]]
+                    [] OTHER -> rd
+InitApi == { [ty |-> "api", sid |-> 0, b |-> <<>>, mut |-> <<>>, op |-> "none", rd |-> ApiInit, h |-> <<>>] }
+
 \* ======================================================================= scopes
 SeedLog == ndJsonDeserialize("seeds.ndjson")     \* real encodings produced by the driver: [ty, b, nodes, id]
 SeedBase == 1000
@@ -577,6 +612,7 @@ InitSet == CASE Scope = "items" -> InitItems
              [] Scope = "all"   -> InitTyped \cup InitSeeds
              [] Scope = "big"   -> InitBig
              [] Scope = "seq"   -> InitSeq
+             [] Scope = "api"   -> InitApi
 Init == c \in InitSet
 
 Label(op, i) == op \o "@" \o ToString(i)
@@ -624,6 +660,9 @@ Next == \/ /\ Scope \in {"typed", "seeds", "all"}
            /\ Len(c.h) < SeqDepth
            /\ \E st \in SeqSteps(c) : LET q == SeqApply(st[1], st[2], c.cont) IN
                  c' = [c EXCEPT !.cont = q, !.h = Append(@, [op |-> st[1], x |-> st[2], cont |-> q])]
+        \/ /\ Scope = "api"
+           /\ Len(c.h) < SeqDepth
+           /\ \E o \in ApiOps(c.rd) : c' = [c EXCEPT !.rd = ApiNext(c.rd, o), !.h = Append(@, o)]
         \/ /\ Scope = "items"
            /\ \E x \in GrowItem(c.it) : c' = ItemCase(x)
         \/ /\ Scope = "bytes"
@@ -642,7 +681,7 @@ Typed == c.ty # "generic"
 \* the expensive part); a failing conjunct prints its name.
 Named(n, x) == x \/ (PrintT(<<"FAILED", n, c.ty, c.mut>>) /\ FALSE)
 TypedSelfCheck ==
-   (Typed /\ Scope \notin {"big", "seq"}) => LET s == SchemaOf(c)
+   (Typed /\ Scope \notin {"big", "seq", "api"}) => LET s == SchemaOf(c)
                 p == Parse(c.b)
                 strict == p.ok /\ Match(s, p.it, TRUE)      \* TypedCanonical
                 len == p.ok /\ Match(s, p.it, FALSE)        \* Accepts
@@ -675,6 +714,10 @@ BigSound == (Scope = "big") =>
 \* the model of a container's content: no duplicates, only known elements
 SeqSound == (Scope = "seq") => /\ \A i, j \in DOMAIN c.cont : i # j => c.cont[i] # c.cont[j]
                               /\ \A i \in DOMAIN c.cont : c.cont[i] \in SeqX
+\* the model of the readers: a position never passes the end, a reader at EOF has delivered everything
+ApiSound == (Scope = "api") => \A t \in ApiSlots : c.rd[t].st # "free" =>
+               /\ c.rd[t].pos <= Len(Enc(ApiVal(c.rd[t].v)))
+               /\ (c.rd[t].st = "eof" => c.rd[t].pos = Len(Enc(ApiVal(c.rd[t].v))))
 \* the compressed encoder against the encoder: for the string leaves of every unmutated sample, at small lengths on both
 \* sides of the first header-class boundary
 EncCSound == (Scope \in {"typed", "all"} /\ c.mut = <<>> /\ c.sid = 0) =>
@@ -684,7 +727,8 @@ EncCSound == (Scope \in {"typed", "all"} /\ c.mut = <<>> /\ c.sid = 0) =>
       /\ SizeC(Subst(p.it, ps[i], Virt(165, n))) = Len(Enc(Subst(p.it, ps[i], S(Fill(n, 165)))))
 \* ======================================================================= generation (G)
 Emit == (GenMode = "print") =>
-   IF Scope = "seq" THEN (Len(c.h) = SeqDepth => PrintT("@@J " \o ToJson([kind |-> "Q", ty |-> c.ty, init |-> SeqInit(c.ty), ops |-> c.h])))
+   IF Scope = "api" THEN (Len(c.h) = SeqDepth => PrintT("@@J " \o ToJson([kind |-> "A", ops |-> c.h, vals |-> [v \in ApiVals |-> ApiVal(v)]])))
+   ELSE IF Scope = "seq" THEN (Len(c.h) = SeqDepth => PrintT("@@J " \o ToJson([kind |-> "Q", ty |-> c.ty, init |-> SeqInit(c.ty), ops |-> c.h])))
    ELSE IF Scope = "big" THEN PrintT("@@J " \o ToJson([kind |-> "D", d |-> c.d]))
    ELSE PrintT("@@J " \o ToJson([kind |-> "B", ty |-> c.ty, sid |-> c.sid, b |-> c.b, mut |-> c.mut]))
 =============================================================================
